@@ -36,3 +36,14 @@ package zstd
 //@   requires z != nil && z.Decoder != nil && z.pool != nil
 //@   before sync.(*Pool).Put assert [C18.pool.reader] !z.Decoder.busy
 //@   modifies z.Decoder.busy, elems(p)
+
+// every pooled wrapper owns its own underlying compressor (see the snappy contract file)
+//@ func zstd.NewWriter
+//@   assumed
+//@   results w, err
+//@   ensures w != nil && fresh(w)
+//@   modifies nothing
+//@ func zstd.init.1$1
+//@   requires *c != nil
+//@   ensures [C18.pool.own] typeIs(result, *writer) && asType(result, *writer) != nil && fresh(asType(result, *writer)) && asType(result, *writer).Encoder != nil && fresh(asType(result, *writer).Encoder)
+//@   modifies nothing
